@@ -6,15 +6,21 @@ C11 — iSIM statistics are exact.
 division).  `exactIsim ks n = Σ C(k,2) / Σ [C(k,2) + k(n-k)]` over ℚ.
 
 Proved: bit-exactness (= the correctly rounded exact rational) below `n·Σk < 2^52`, which covers
-every clustering with `n²·F < 2^52`; absence of uint64 wrap-around below 2^64; the value for
-empty fingerprints; the two-fingerprint identity; invariance under row and column order at
-every magnitude; the defining identities of the derived forms; complementary similarity.
-NOT proved (the probe found a one-ulp deviation near 2^60, so plain equality is false there):
-an explicit ulp bound between 2^52 and 2^63 — `C11_exact` is therefore the partial form of
-"equals the exact rational for n·Σk < 2^63"; what is proved in that range is `C11_no_wrap`
-(the float expression is evaluated on the true integers) and every invariance clause.
+every clustering with `n²·F < 2^52`; absence of uint64 wrap-around below 2^64; an explicit
+relative-error bound on the WHOLE no-wrap range `n·Σk < 2^64` (hence on the 2^63 range of the
+property): `|v − exact| ≤ 18·2^-53·exact` (`C11_ulp`; forward error analysis, the subtraction
+`(a + n·Σk) − Σk²` amplifies by at most `Σk² ≤ 4·denominator`), with `v = 0` when the exact value is 0,
+`0 ≤ v` and `v ≤ 1 + 18·2^-53` (`C11_range_wide`); the value for empty fingerprints; the
+two-fingerprint identity; invariance under row and column order at every magnitude; the defining
+identities of the derived forms; complementary similarity.
+NOT true above 2^52 (so not proved): plain equality with the rounded exact rational (the probe found
+a one-ulp deviation near 2^60) — `C11_exact` stays the partial form of "equals the exact rational for
+n·Σk < 2^63" and `C11_ulp` is the form that holds on the full range; and the upper end `v ≤ 1` of the
+range clause — `C11_gt_one` is a kernel-checked input with `n·Σk ≈ 1.33·2^52`, exact value 1 and float
+value `1 + 2^-52` (`C11_range` therefore keeps its 2^52 hypothesis).
 -/
 import BBProofs.Isim
+import BBProofs.IsimErr
 import BBProofs.Fl
 
 namespace BB
@@ -54,6 +60,42 @@ theorem C11_range (ks : List Nat) (n : Nat) (hn : 2 ≤ n) (hk : ∀ k ∈ ks, k
     (hb : n * ks.sum < 2 ^ 52) : ∃ v, isimFromSum ks n = some v ∧ 0 ≤ v ∧ v ≤ 1 :=
   isim_le_one rnd_isRounding ks n hn hk hS hb
 
+/-- between 2^52 and 2^64 the float formula is no longer bit-exact (a one-ulp deviation exists near
+2^60) but stays within 18 units of `2^-53` (relative) of the exact rational definition; in particular
+it is exactly 0 when the exact value is 0 -/
+theorem C11_ulp (ks : List Nat) (n : Nat) (hn : 2 ≤ n) (hk : ∀ k ∈ ks, k ≤ n) (hS : 0 < ks.sum)
+    (hb : n * ks.sum < 2 ^ 64) :
+    ∃ v, isimFromSum ks n = some v ∧
+      |v - exactIsim ks n| ≤ 18 * 2 ^ (-53 : ℤ) * exactIsim ks n ∧ 0 ≤ v :=
+  isim_ulp ks n hn hk hS hb
+
+/-- the same on the range `n·Σk < 2^63` stated by the property -/
+theorem C11_ulp_63 (ks : List Nat) (n : Nat) (hn : 2 ≤ n) (hk : ∀ k ∈ ks, k ≤ n) (hS : 0 < ks.sum)
+    (hb : n * ks.sum < 2 ^ 63) :
+    ∃ v, isimFromSum ks n = some v ∧
+      |v - exactIsim ks n| ≤ 18 * 2 ^ (-53 : ℤ) * exactIsim ks n ∧ 0 ≤ v :=
+  isim_ulp ks n hn hk hS (by omega)
+
+/-- exact value 0 (no column with two set bits): the float value is 0 -/
+theorem C11_ulp_zero (ks : List Nat) (n : Nat) (hn : 2 ≤ n) (hk : ∀ k ∈ ks, k ≤ n) (hS : 0 < ks.sum)
+    (hb : n * ks.sum < 2 ^ 64) (h0 : exactIsim ks n = 0) : isimFromSum ks n = some 0 := by
+  obtain ⟨v, hv, herr, _⟩ := isim_ulp ks n hn hk hS hb
+  rw [h0, mul_zero, sub_zero] at herr
+  rw [hv, abs_eq_zero.mp (le_antisymm herr (abs_nonneg v))]
+
+/-- the value lies in `[0, 1 + 18·2^-53]` on the whole no-wrap range -/
+theorem C11_range_wide (ks : List Nat) (n : Nat) (hn : 2 ≤ n) (hk : ∀ k ∈ ks, k ≤ n) (hS : 0 < ks.sum)
+    (hb : n * ks.sum < 2 ^ 64) :
+    ∃ v, isimFromSum ks n = some v ∧ 0 ≤ v ∧ v ≤ 1 + 18 * 2 ^ (-53 : ℤ) :=
+  isim_range_ulp ks n hn hk hS hb
+
+/-- `v ≤ 1` FAILS above 2^52: one column, `k = n = 77490642` (all fingerprints identical, exact
+iSIM 1, `n·Σk = n² < 2^53`), the float formula gives `1 + 2^-52 > 1` -/
+theorem C11_gt_one :
+    exactIsim [77490642] 77490642 = 1 ∧
+    ∃ v, isimFromSum [77490642] 77490642 = some v ∧ 1 < v ∧ 77490642 * [77490642].sum < 2 ^ 53 :=
+  ⟨isim_gt_one_witness.1, _, isim_gt_one_witness.2, by norm_num, by decide⟩
+
 /-- for two fingerprints iSIM is their Tanimoto similarity -/
 theorem C11_pair (a b : Row) (hl : a.length = b.length) (hu : 0 < popc a + popc b)
     (hb : 2 * (popc a + popc b) < 2 ^ 52) : isimRows [a, b] = some (jtBits a b) :=
@@ -84,5 +126,9 @@ theorem C11_compl (rows : List Row) (F : Nat) (hF : ∀ r ∈ rows, r.length = F
 /-! Non-vacuity: three fingerprints over four bits. -/
 example : isimFromSum [3, 2, 0, 1] 3 = some (rnd (exactIsim [3, 2, 0, 1] 3)) :=
   C11_exact [3, 2, 0, 1] 3 (by decide) (by decide) (by decide) (by decide)
+
+example : ∃ v, isimFromSum [3, 2, 0, 1] 3 = some v ∧
+    |v - exactIsim [3, 2, 0, 1] 3| ≤ 18 * 2 ^ (-53 : ℤ) * exactIsim [3, 2, 0, 1] 3 ∧ 0 ≤ v :=
+  C11_ulp [3, 2, 0, 1] 3 (by decide) (by decide) (by decide) (by decide)
 
 end BB
